@@ -14,7 +14,8 @@ Record invitation := mkInv {
   i_kp : N;                 (* key package it was created for *)
   i_gid : N;                (* MLS group id it invites to *)
   i_state : N;              (* MLS state the joiner ends in *)
-  i_epoch : N; i_data : N }.
+  i_epoch : N; i_data : N;
+  i_collides : bool }.      (* its Nostr group id is already held by ANOTHER stored group: save_group refuses the record *)
 
 Record grec := mkG { g_state : N; g_epoch : N; g_data : N; g_last : option N; g_su_required : bool }.
 Record wrec := mkW { w_gid : N; w_state : N; w_wrapper : N; w_inv : invitation }.
@@ -49,6 +50,8 @@ Definition process_welcome (s : st) (w : invitation) : st * wres :=
   | Some (None, true) => (s, WErr)
   | None =>
     if negb (previewable s w) then (set_pw s (aset N.eqb (i_wrapper w) (i_id w, false) (pwelcomes s)), WErr) else
+    (* the pending record cannot be stored (Nostr group id taken by another group): the call fails before anything is recorded *)
+    if negb (is_active s (i_gid w)) && i_collides w then (s, WErr) else
     let s1 := if is_active s (i_gid w) then s
               else set_groups s (aset N.eqb (i_gid w) (mkG GS_PENDING (i_epoch w) (i_data w) None true) (groups s)) in
     match i_id w with
